@@ -130,22 +130,24 @@ func (p *PointD) ToPoint64() Point64 {
 }
 
 func (p *PointD) ToPoint64Scale(scale float64) Point64 {
+	// scale first, then round (half away from zero), as Point64(PointD, scale) does upstream
+	x, y := p.X*scale, p.Y*scale
 	rX := 0.0
 	rY := 0.0
 
-	if p.X > 0 {
-		rX = math.Floor(p.X + 0.5)
+	if x > 0 {
+		rX = math.Floor(x + 0.5)
 	} else {
-		rX = math.Ceil(p.X - 0.5)
+		rX = math.Ceil(x - 0.5)
 	}
 
-	if p.Y > 0 {
-		rY = math.Floor(p.Y + 0.5)
+	if y > 0 {
+		rY = math.Floor(y + 0.5)
 	} else {
-		rY = math.Ceil(p.Y - 0.5)
+		rY = math.Ceil(y - 0.5)
 	}
 
-	return Point64{X: int64(rX * scale), Y: int64(rY * scale)}
+	return Point64{X: int64(rX), Y: int64(rY)}
 }
 
 func (p *PointD) Scale(scale float64) {
